@@ -233,6 +233,54 @@ fn routes(tier: Tier, r: &mut Routes) {
     }
 }
 
+/// the public seeding accessors and constructors of the scalar types: which part each of them sets
+/// (the routes above build their inputs from the field layout, users build them with these)
+fn seeding_accessors(st: &mut Stats) {
+    use num_dual::*;
+    let mut check = |st: &mut Stats, what: &str, got: Vec<f64>, want: Vec<f64>| {
+        st.evaluations += 1;
+        st.transitions += 1;
+        st.state(hash64(&("accessor", what)));
+        st.nontrivial(hash64(&("accessor", what)));
+        if got != want {
+            st.violation(Violation { sig: format!("seeding {what}"), case: json!({"accessor": what}), what: format!("{what}: parts {got:?}, documented {want:?}") });
+        }
+    };
+    let x = 2.5;
+    let d = Dual64::from_re(x).derivative();
+    check(st, "Dual64::from_re(x).derivative()", vec![d.re, d.eps], vec![x, 1.0]);
+    let d = Dual64::new(x, 3.0);
+    check(st, "Dual64::new(re, eps)", vec![d.re, d.eps], vec![x, 3.0]);
+    let d = Dual2_64::from_re(x).derivative();
+    check(st, "Dual2_64::from_re(x).derivative()", vec![d.re, d.v1, d.v2], vec![x, 1.0, 0.0]);
+    let d = Dual2_64::new(x, 3.0, 4.0);
+    check(st, "Dual2_64::new(re, v1, v2)", vec![d.re, d.v1, d.v2], vec![x, 3.0, 4.0]);
+    let d = Dual3_64::from_re(x).derivative();
+    check(st, "Dual3_64::from_re(x).derivative()", vec![d.re, d.v1, d.v2, d.v3], vec![x, 1.0, 0.0, 0.0]);
+    let d = Dual3_64::new(x, 3.0, 4.0, 5.0);
+    check(st, "Dual3_64::new(re, v1, v2, v3)", vec![d.re, d.v1, d.v2, d.v3], vec![x, 3.0, 4.0, 5.0]);
+    let h = |d: HyperDual64| vec![d.re, d.eps1, d.eps2, d.eps1eps2];
+    check(st, "HyperDual64 derivative1", h(HyperDual64::from_re(x).derivative1()), vec![x, 1.0, 0.0, 0.0]);
+    check(st, "HyperDual64 derivative2", h(HyperDual64::from_re(x).derivative2()), vec![x, 0.0, 1.0, 0.0]);
+    check(st, "HyperDual64 derivative1 derivative2", h(HyperDual64::from_re(x).derivative1().derivative2()), vec![x, 1.0, 1.0, 0.0]);
+    check(st, "HyperDual64::new", h(HyperDual64::new(x, 3.0, 4.0, 5.0)), vec![x, 3.0, 4.0, 5.0]);
+    let hh = |d: HyperHyperDual64| vec![d.re, d.eps1, d.eps2, d.eps3, d.eps1eps2, d.eps1eps3, d.eps2eps3, d.eps1eps2eps3];
+    check(st, "HyperHyperDual64 derivative1", hh(HyperHyperDual64::from_re(x).derivative1()), vec![x, 1.0, 0.0, 0.0, 0.0, 0.0, 0.0, 0.0]);
+    check(st, "HyperHyperDual64 derivative2", hh(HyperHyperDual64::from_re(x).derivative2()), vec![x, 0.0, 1.0, 0.0, 0.0, 0.0, 0.0, 0.0]);
+    check(st, "HyperHyperDual64 derivative3", hh(HyperHyperDual64::from_re(x).derivative3()), vec![x, 0.0, 0.0, 1.0, 0.0, 0.0, 0.0, 0.0]);
+    check(st, "HyperHyperDual64 derivative1 derivative3", hh(HyperHyperDual64::from_re(x).derivative1().derivative3()), vec![x, 1.0, 0.0, 1.0, 0.0, 0.0, 0.0, 0.0]);
+    check(st, "HyperHyperDual64::new", hh(HyperHyperDual64::new(x, 1.0, 2.0, 3.0, 4.0, 5.0, 6.0, 7.0)), vec![x, 1.0, 2.0, 3.0, 4.0, 5.0, 6.0, 7.0]);
+    // a function of two variables through the accessors: f = x y^2, x on direction 1, y on 2 (and 3)
+    let (xv, yv) = (1.5, -0.75);
+    let f = HyperDual64::from_re(xv).derivative1() * HyperDual64::from_re(yv).derivative2().powi(2);
+    check(st, "HyperDual64 x y^2 via accessors", h(f), vec![xv * yv * yv, yv * yv, 2.0 * xv * yv, 2.0 * yv]);
+    let f = HyperHyperDual64::from_re(xv).derivative1() * HyperHyperDual64::from_re(yv).derivative2().derivative3().powi(2);
+    check(st, "HyperHyperDual64 x y^2 via accessors", hh(f), vec![xv * yv * yv, yv * yv, 2.0 * xv * yv, 2.0 * xv * yv, 2.0 * yv, 2.0 * yv, 2.0 * xv, 2.0]);
+    // nested: the accessors of the outer and of the inner level
+    let n = Dual::<Dual64, f64>::from_re(Dual64::from_re(x).derivative()).derivative();
+    check(st, "Dual<Dual64> derivative on both levels", vec![n.re.re, n.re.eps, n.eps.re, n.eps.eps], vec![x, 1.0, 1.0, 0.0]);
+}
+
 fn main() {
     quiet_panics();
     let cli = cli();
@@ -242,6 +290,7 @@ fn main() {
     let start = Instant::now();
     let mut stats = Stats::default();
     let tier = if cli.mode == Mode::Quick { Tier::Quick } else { Tier::Thorough };
+    seeding_accessors(&mut stats);
     let progs = programs(2);
     let points: &[(f64, f64)] = if cli.mode == Mode::Quick { &[(0.75, -1.25), (0.0, 0.75)] } else { &[(0.75, -1.25), (2.5, 0.3125), (0.0, 0.75), (-1.25, 0.0)] };
     let mut n_routes = 0;
@@ -307,7 +356,7 @@ fn main() {
         mode: cli.mode,
         seed: cli.seed,
         start,
-        rule: "all straight-line programs of length <= 2 over the 25-operation family alphabet on registers {x0, x1, constant} x evaluation routes (type x assignment generator->variable: Dual3 / Dual<Dual<Dual>> / HyperHyperDual / Dual<Dual2> / Dual2<Dual>; Dual2 / Dual2Vec / HyperDual / HyperDualVec / Dual<Dual>; vector types with one direction per variable for n = 1..6 static and dynamic; f32 routes; nested vector types) ; every pair of routes exposing the same partial derivative (key = multiset of variables) is compared; plus NDERIV of all 8 + 64 + 512 nestings of depth <= 3. Non-trivial = a (program, partial derivative of order >= 1) with a non-zero value reached through at least two routes.".into(),
+        rule: "all straight-line programs of length <= 2 over the 25-operation family alphabet on registers {x0, x1, constant} x evaluation routes (type x assignment generator->variable: Dual3 / Dual<Dual<Dual>> / HyperHyperDual / Dual<Dual2> / Dual2<Dual>; Dual2 / Dual2Vec / HyperDual / HyperDualVec / Dual<Dual>; vector types with one direction per variable for n = 1..6 static and dynamic; f32 routes; nested vector types) ; every pair of routes exposing the same partial derivative (key = multiset of variables) is compared; plus NDERIV of all 8 + 64 + 512 nestings of depth <= 3, plus the seeding accessors and constructors of the scalar types (which part each one sets). Non-trivial = a (program, partial derivative of order >= 1) with a non-zero value reached through at least two routes.".into(),
         assumptions: vec![
             "differential oracle: |a - b| <= 2 (E_a + E_b) with E the propagated first-order rounding bounds (f32 routes with u_32); the reference values are not used for the verdict".into(),
         ],
